@@ -4,6 +4,7 @@ package main
 
 import (
 	"fmt"
+	"go/constant"
 	"go/token"
 	"sort"
 	"strings"
@@ -475,24 +476,50 @@ func (m *Model) RunScope(s *Sink, rule string) {
 	// component: arguments evaluated in the caller's scope, bound in the fresh one
 	if fn := m.Method("evaluator", "Evaluator", "evalComponentStmt"); fn != nil {
 		envParam := fn.Params[len(fn.Params)-1]
-		okArgs := false
-		for _, b := range fn.Blocks {
-			for _, in := range b.Instrs {
-				c, ok := in.(*ssa.Call)
-				if !ok || !isEvalCall(m, c) {
-					continue
-				}
-				if lk := lookupOf(stripIface(c.Call.Args[1])); lk != nil && strings.HasSuffix(fieldPathOf(lk.X), ".Argument.Pairs") {
-					okArgs = c.Call.Args[2] == ssa.Value(envParam)
-				}
-			}
-		}
+		okArgs, nArgs := true, 0
 		okBind := false
-		for _, c := range callsTo(fn, "object", "Set") {
-			if nc, ok := c.Call.Args[0].(*ssa.Call); ok && nc.Call.StaticCallee() == newEnclosed {
-				okBind = true
+		isFresh := func(v ssa.Value) bool {
+			nc, ok := v.(*ssa.Call)
+			if !ok || nc.Call.StaticCallee() != newEnclosed {
+				return false
+			}
+			for _, r := range m.resolveUp(nc.Call.Args[0], fn, 0) {
+				if r != ssa.Value(envParam) {
+					return false
+				}
+			}
+			return true
+		}
+		for _, h := range m.helpersOf(fn) { // the function and the private helpers its body was split into
+			for _, b := range h.Blocks {
+				for _, in := range b.Instrs {
+					c, ok := in.(*ssa.Call)
+					if !ok || !isEvalCall(m, c) {
+						continue
+					}
+					if lk := lookupOf(stripIface(c.Call.Args[1])); lk != nil && strings.HasSuffix(fieldPathOf(lk.X), ".Argument.Pairs") {
+						nArgs++
+						for _, r := range m.resolveUp(c.Call.Args[2], fn, 0) {
+							if r != ssa.Value(envParam) {
+								okArgs = false
+							}
+						}
+					}
+				}
+			}
+			for _, c := range callsTo(h, "object", "Set") {
+				all := true
+				for _, r := range m.resolveUp(c.Call.Args[0], fn, 0) {
+					if !isFresh(r) {
+						all = false
+					}
+				}
+				if all {
+					okBind = true
+				}
 			}
 		}
+		okArgs = okArgs && nArgs > 0
 		if okArgs && okBind {
 			s.OK(rule, fnKey(fn)+"|arguments from the caller's scope, bound in the component's", m.Pos(fn.Pos()), "argument expressions are evaluated in env and bound with Set in the fresh scope")
 		} else {
@@ -557,11 +584,20 @@ func (m *Model) RunScope(s *Sink, rule string) {
 						bad = "map update of another scope's store at " + m.InstrPos(in)
 					}
 				case *ssa.Store:
-					if fa, ok := x.Addr.(*ssa.FieldAddr); ok {
-						if _, fresh := fa.X.(*ssa.Alloc); !fresh {
-							bad = "store to " + valueDesc(x.Addr) + " at " + m.InstrPos(in)
+					// memory allocated in this call (locals, composite literals, the argument array of a variadic call) is fine
+					base := x.Addr
+					for {
+						if fa, ok := base.(*ssa.FieldAddr); ok {
+							base = fa.X
+							continue
 						}
-					} else if _, isAlloc := x.Addr.(*ssa.Alloc); !isAlloc {
+						if ia, ok := base.(*ssa.IndexAddr); ok {
+							base = ia.X
+							continue
+						}
+						break
+					}
+					if _, isAlloc := base.(*ssa.Alloc); !isAlloc {
 						bad = "store to " + valueDesc(x.Addr) + " at " + m.InstrPos(in)
 					}
 				}
@@ -588,49 +624,102 @@ func (m *Model) RunScope(s *Sink, rule string) {
 		if mu == nil {
 			s.Violation(rule, fnKey(set)+"|stores the value", m.Pos(set.Pos()), "Set never stores the value")
 		} else {
-			reserved, typed := false, false
-			for _, f := range expandFacts(factsAt(mu.Block())) {
-				switch c := f.Cond.(type) {
-				case *ssa.BinOp:
-					if c.Op == token.EQL && !f.Holds {
-						if k, ok := constOfValue(c.Y); ok && k == "loop" && c.X == ssa.Value(set.Params[1]) {
-							reserved = true
+			// decided by evaluating Set (with whatever helpers it calls) on the finite set of cases that matter:
+			// name reserved or not; a visible variable exists or not, is nil or not, has the value's type or another.
+			getFn := m.Method("object", "Env", "Get")
+			type scen struct {
+				name                   string
+				key                    string
+				exists, oldNil, differ bool
+				wantStore              bool
+			}
+			scens := []scen{
+				{"the reserved name loop", "loop", false, false, false, false},
+				{"a new variable", "x", false, false, false, true},
+				{"a visible variable holding nil", "x", true, true, false, true},
+				{"a visible variable of the same type", "x", true, false, false, true},
+				{"a visible variable of another type", "x", true, false, true, false},
+			}
+			helpers := map[*ssa.Function]bool{}
+			for _, h := range m.helpersOf(set) {
+				helpers[h] = true
+			}
+			reservedOK, typedOK, undecided := true, true, ""
+			for _, sc := range scens {
+				recvTok := iObj{"env"}
+				ip := &Interp{m: m}
+				stored := false
+				usedGet := false
+				ip.call = func(c *ssa.Call, args []any) (any, bool) {
+					if c.Call.IsInvoke() && c.Call.Method.Name() == "Type" && len(args) == 1 {
+						if o, ok := args[0].(iObj); ok {
+							return constant.MakeString(o.kind), true
 						}
+						return nil, true
 					}
-				case *ssa.Extract:
-					if call, ok := c.Tuple.(*ssa.Call); ok && !f.Holds && call.Call.StaticCallee() != nil && call.Call.StaticCallee().Name() == "isTypeMismatch" {
-						typed = true
+					if sc2 := c.Call.StaticCallee(); sc2 != nil && sc2 == getFn && len(args) == 2 {
+						k, isK := args[1].(constant.Value)
+						if args[0] != any(recvTok) || !isK || k.Kind() != constant.String || constant.StringVal(k) != sc.key {
+							return nil, true // some other lookup: unknown
+						}
+						usedGet = true
+						if !sc.exists || sc.oldNil {
+							return iTuple{iNil{}, constant.MakeBool(sc.exists)}, true
+						}
+						return iTuple{iObj{"A"}, constant.MakeBool(true)}, true
+					}
+					return nil, false
+				}
+				ip.instr = func(in ssa.Instruction, depth int) {
+					if mu2, ok := in.(*ssa.MapUpdate); ok && strings.HasSuffix(fieldPathOf(mu2.Map), ".store") {
+						stored = true
+					}
+				}
+				valKind := "A"
+				if sc.differ {
+					valKind = "B"
+				}
+				ip.Run(set, []any{recvTok, constant.MakeString(sc.key), iObj{valKind}})
+				if ip.stuck != "" {
+					undecided = sc.name + ": " + ip.stuck
+					break
+				}
+				for _, l := range ip.lost {
+					if helpers[l] {
+						undecided = sc.name + ": helper " + fnKey(l) + " could not be evaluated"
+					}
+				}
+				if sc.exists && !usedGet && stored {
+					typedOK = false // stored without ever asking for the visible variable
+				}
+				if stored != sc.wantStore {
+					if sc.key == "loop" {
+						reservedOK = false
+					} else {
+						typedOK = false
 					}
 				}
 			}
+			if undecided != "" {
+				s.Undecided(rule, fnKey(set)+"|case evaluation", m.Pos(set.Pos()), "Env.Set could not be evaluated for the case %s", undecided)
+			}
+			reserved, typed := reservedOK && undecided == "", typedOK && undecided == ""
 			if reserved {
-				s.OK(rule, fnKey(set)+"|the name loop is refused", m.InstrPos(mu), "the store is dominated by key != \"loop\"")
+				s.OK(rule, fnKey(set)+"|the name loop is refused", m.InstrPos(mu), "case evaluation: with key \"loop\" no store is reached")
 			} else {
 				s.Violation(rule, fnKey(set)+"|the name loop is refused", m.InstrPos(mu), "Set stores without first refusing the reserved name \"loop\"")
 			}
 			if typed {
-				s.OK(rule, fnKey(set)+"|a value of another type is refused", m.InstrPos(mu), "the store is dominated by the false outcome of isTypeMismatch")
+				s.OK(rule, fnKey(set)+"|a value of another type is refused", m.InstrPos(mu), "case evaluation over {absent, nil, same type, other type} of the variable visible through Get: the store is reached in exactly the first three")
 			} else {
-				s.Violation(rule, fnKey(set)+"|a value of another type is refused", m.InstrPos(mu), "Set stores without the type-mismatch test: a visible variable can be silently retyped")
+				s.Violation(rule, fnKey(set)+"|a value of another type is refused", m.InstrPos(mu), "Set does not store exactly when the variable visible through Get is absent, nil or of the value's type: a visible variable can be silently retyped (or a legal assignment is refused)")
 			}
 		}
 		// isTypeMismatch consults the whole chain through Get
-		itm := m.Method("object", "Env", "isTypeMismatch")
 		get := m.Method("object", "Env", "Get")
-		if itm != nil && get != nil {
-			uses := false
-			for _, b := range itm.Blocks {
-				for _, in := range b.Instrs {
-					if c, ok := in.(*ssa.Call); ok && c.Call.StaticCallee() == get {
-						uses = true
-					}
-				}
-			}
-			if uses {
-				s.OK(rule, fnKey(itm)+"|compares with the visible variable", m.Pos(itm.Pos()), "the old value is looked up with Get, which walks the scope chain")
-			} else {
-				s.Violation(rule, fnKey(itm)+"|compares with the visible variable", m.Pos(itm.Pos()), "the type check looks only at the local scope: a variable of an enclosing block can be shadowed with another type")
-			}
+		if get == nil {
+			s.Undecided(rule, "object.(*Env).Get", "-", "not found")
+		} else {
 			// Get: outer consulted exactly when absent locally
 			okGet := false
 			for _, b := range get.Blocks {
